@@ -19,7 +19,11 @@ struct Poke
 };
 struct Buf
 {
-    uint8_t src{0};  // 0 CMP frame recipe, 1 TECMP recipe, 2 raw bytes
+    uint8_t src{0};  // 0 CMP frame recipe, 1 TECMP recipe, 2 raw bytes, 3 CMP frame of exactly tileTotal bytes tiled by unsegmented messages
+    uint32_t tileTotal{0};  // src 3: total frame size (the last message takes the remainder, so the messages tile the frame exactly)
+    uint16_t tileLen{0};    // src 3: payload length of each message
+    uint32_t tileWord{0};   // src 3: low 32 bits of the first message's timestamp (what a walk that restarts at offset 0 would read as
+                            // flags / payload type / length)
     FrameRecipe cmp;
     TecmpRecipe tecmp;
     Bytes raw;
@@ -33,10 +37,42 @@ struct Buf
         a.bytes("raw", raw);
         a.num("cutAt", cutAt);
         a.vec("pokes", pokes);
+        a.optionalNum("tileTotal", tileTotal);
+        a.optionalNum("tileLen", tileLen);
+        a.optionalNum("tileWord", tileWord);
+    }
+    Bytes tiled() const
+    {
+        Bytes b;
+        wire::CmpHdr h{1, 0, cmp.dev, 1, cmp.stream, cmp.seq};
+        wire::putCmpHdr(b, h);
+        const size_t total = std::max<size_t>(tileTotal, 24), step = 16 + size_t(tileLen);
+        bool first = true;
+        while (b.size() < total)
+        {
+            size_t left = total - b.size();
+            size_t len = tileLen;
+            if (left < 2 * step)  // last message: takes what is left (if fewer than 16 bytes would remain, they stay a non-message tail)
+                len = left >= 16 ? std::min<size_t>(left - 16, 65535) : 0;
+            if (left < 16)
+            {
+                b.insert(b.end(), left, 0);
+                break;
+            }
+            wire::MsgHdr mh;
+            mh.timestamp = first ? ((0x1111010000000000ull & 0xFFFFFFFF00000000ull) | tileWord) : 0x0102030405060708ull + b.size();
+            mh.idWord = static_cast<uint32_t>(b.size());
+            mh.payloadType = 0x20;
+            mh.length = static_cast<uint16_t>(len);
+            wire::putMsgHdr(b, mh);
+            b.insert(b.end(), len, static_cast<uint8_t>(0xA0 | (b.size() & 0xF)));
+            first = false;
+        }
+        return b;
     }
     Bytes build() const
     {
-        Bytes b = src == 0 ? cmp.build() : src == 1 ? tecmp.build() : raw;
+        Bytes b = src == 0 ? cmp.build() : src == 1 ? tecmp.build() : src == 3 ? tiled() : raw;
         for (const auto& p : pokes)
         {
             if (p.width == 1 && p.off < b.size())
@@ -234,6 +270,24 @@ static void enumerate(int tier, const std::function<bool(const Case&)>& emit)
             }
         }
     }
+    // the top of the quantified length range: frames of (nearly) 64 KiB tiled exactly to their last byte by tiny unsegmented messages,
+    // the first timestamp spelling plausible header tails (offsets and sums close to 2^16; "at most one packet per 12 bytes")
+    for (uint32_t total : {65536u, 65535u, 65534u, 65528u, 65520u, 32768u})
+        for (uint16_t len : {uint16_t(0), uint16_t(1), uint16_t(4), uint16_t(7), uint16_t(8), uint16_t(100)})
+            for (uint32_t word : {0x00200008u, 0x00200018u, 0x0020000Cu, 0x00200000u, 0x00201FF8u, 0x4020FFFFu})
+            {
+                Buf b;
+                b.src = 3;
+                b.tileTotal = total;
+                b.tileLen = len;
+                b.tileWord = word;
+                b.cmp.dev = 0x0102;
+                b.cmp.stream = 7;
+                Case c;
+                c.bufs.push_back(b);
+                if (!emit(c))
+                    return;
+            }
     // tiny buffers: every length 0..12 with first byte 0 (TECMP route) and 1 (CMP route)
     for (size_t n = 0; n <= 12; ++n)
         for (uint8_t first : {uint8_t(0), uint8_t(1)})
